@@ -70,10 +70,10 @@ TUnpackT ==
 \* an operation applied to the packed tensor and to its unpacked twin
 TOp ==
   /\ Is("Op") /\ pc \in {"packed", "py"} /\ Step
-  /\ LET d == Dispatch(Ev.kind) IN
+  /\ (LET d == Dispatch(Ev.kind) IN
        \/ d = "on_unpacked" /\ Ev.outcome = "value" /\ Ev.on_packed = Ev.on_unpacked
        \/ d = "packed" /\ Ev.outcome = "packed" /\ Ev.on_packed = Ev.on_unpacked
-       \/ d = "ValueError" /\ Ev.outcome = "ValueError"
+       \/ d = "ValueError" /\ Ev.outcome = "ValueError") = TRUE
   /\ UNCHANGED <<vars, drift>>
 
 TNext == TStart \/ TPack \/ TStartBytes \/ TUnpack \/ TUnpackT \/ TOp
